@@ -64,12 +64,13 @@ Record numops (T : Type) := mkNum {
   n_is_nan : T -> bool;
   n_eqb : T -> T -> bool;                 (* f64 == *)
   n_leb : T -> T -> bool;                 (* f64 <= *)
-  n_cmp : T -> T -> option comparison     (* f64 partial_cmp *)
+  n_cmp : T -> T -> option comparison;    (* f64 partial_cmp *)
+  n_abs : T -> T                          (* f64::abs *)
 }.
 Arguments n_one {T}. Arguments n_add {T}. Arguments n_sub {T}. Arguments n_mul {T}.
 Arguments n_div {T}. Arguments n_neg {T}. Arguments n_pow {T}. Arguments n_prefix {T}.
 Arguments n_is_zero {T}. Arguments n_is_nan {T}. Arguments n_eqb {T}. Arguments n_leb {T}.
-Arguments n_cmp {T}.
+Arguments n_cmp {T}. Arguments n_abs {T}.
 
 (* ------------------------------------------------------------------ units *)
 Record ufactor := mkF { f_uid : nat; f_pfx : prefix; f_exp : Qc }.
